@@ -95,14 +95,16 @@ CLAIMED = {
         technique="Coq proof (flow projection, per-record case analysis) + fault enumeration with bystander comparison",
         design="3 C03"),
     "C04": dict(
-        text="Proof (TLS over TCP; QUIC by search and correspondence): Coq theorems C04_sessions_as_if_alone (for every capture, every interleaving and every packet q: the "
+        text="Proof: Coq theorems C04_sessions_as_if_alone (for every capture, every interleaving and every packet q: the "
              "sessions that take q's flow after reading the capture are exactly -- packet buffers, duplicate memories and all -- the sessions obtained from the capture "
              "restricted to q's flow), C04_flows_disjoint (sessions of different flows are different sessions) and C04_output_is_union (the output is the concatenation of "
-             "the per-session outputs, each session decrypted and built on its own). Closed under the global context. The QUIC demultiplexer (addresses, then connection "
-             "IDs) has no theorem; the check merges 2..6 TLS/QUIC connections in all endpoint arrangements the property lists and compares, frame for frame, with the solo exports.",
+             "the per-session outputs, each session decrypted and built on its own). QUIC: C04_quic_sessions_as_if_alone (the demultiplexer -- addresses first, then connection IDs -- for every capture of "
+             "datagrams in any interleaving: the sessions on q's address pair are exactly, keys, connection IDs, packet numbers and collected frames included, those obtained "
+             "from q's datagrams alone, as long as the connection-ID pass never claims a datagram across the boundary of q's flow, i.e. no connection migration between the "
+             "flows; C04_quic_one_datagram; via C08_quic_session_identity). Closed under the global context. The check merges 2..6 TLS/QUIC connections in all endpoint arrangements the property lists and compares, frame for frame, with the solo exports.",
         note="Trusted: Coq kernel; models tied by byte-exact correspondence on interleaved captures; that a session only uses key-log lines with its own client random is read off "
              "the model (find_session_secrets is a filter) and exercised by the shuffled shared key log, not proved end to end; 4-tuple reuse excluded.",
-        technique="Coq proof (projection of the session list onto a flow commutes with packet handling) + merged-vs-solo export comparison",
+        technique="Coq proof (projection of the TLS and of the QUIC session list onto a flow commutes with packet handling) + merged-vs-solo export comparison",
         design="3 C04"),
     "C18": dict(
         text="Proof (partial by nature): the model of run() is a Gallina function of (capture items, secrets, options) starting from the empty state, so determinism of the MODEL "
@@ -142,7 +144,10 @@ CLAIMED = {
              "cut); every session of the cut run is the same-position session of the full run and the segments it exports, hence each direction's byte stream, are a prefix of "
              "what the full run exports for it; decryptable or not (via C08_session_fold / C08_builder_fold, left folds that only append) -- and C08_quic_session_appends: "
              "whatever a datagram does to a QUIC session, the frames it has collected for the export stay in place and new ones are only added behind them (the datagrams "
-             "built from them follow by C02_one_output_per_input_datagram when capture times differ). Closed under the global context. The check sweeps every cut position "
+             "built from them follow by C02_one_output_per_input_datagram when capture times differ), C08_quic_session_identity, and C08_quic -- the whole run, TLS and QUIC "
+             "mixed, key-log blocks anywhere: cut after any item; the cut run succeeds when the full run does, every QUIC session of the cut run is the same-position session of "
+             "the full run with the same identity, its collected frames are a prefix and so is, per direction, with and without -a, the byte stream of the datagrams built. "
+             "Closed under the global context. The check sweeps every cut position "
              "of TLS captures (plain and with duplicates, coalesced/partial retransmissions, late segments) and of QUIC captures, alone and interleaved.",
         note="Trusted: Coq kernel; models of main.run, Session, OutputBuilder, QuicSession tied by byte-exact output correspondence; key log by file or by blocks inside the cut part; "
              "QUIC list-of-sessions level (a new session is appended, existing ones keep their position) is read off the model's dispatch, exercised by the sweep.",
